@@ -57,6 +57,11 @@ func (s StringCallable) toInterface() interface{} {
 // TypeOf implements the jsonata $type function that returns the data type of
 // the argument
 func TypeOf(x interface{}) (string, error) {
+	if x == nil {
+		// An argument with no value has no type either.
+		return "", jtypes.ErrUndefined
+	}
+
 	v := reflect.ValueOf(x)
 	if jtypes.IsCallable(v) {
 		return "function", nil
